@@ -23,6 +23,7 @@ RULE = ("every graph (symmetric irreflexive relation) on 0..5 (quick) / 0..6 (th
         "enumeration plus random graphs on 7..12 positions (chains in shuffled order, stars, cliques, cycles, sparse and "
         "dense random), plus lists that hold an event at several positions (twins: every partition of <= 4 (quick) / <= 5 "
         "(thorough) positions into twin classes x every relation on the events incl. f(a, a); random ones with 1..3 repeats); "
+        "every non-empty set of events without geometry on lists of <= 4 positions (random otherwise); "
         "the comparison function answers as bool, numpy.bool_ or int (all three for every graph on <= 4 (quick) / <= 5 "
         "(thorough) positions, random otherwise); each executed twice (distinct geometries, twins = the same object / events identical up to their uuid, twins = equal "
         "copies); "
@@ -40,7 +41,10 @@ _RECS = [_REC, data.Recording(path="b.wav", duration=500.0, channels=2, samplera
          data.Recording(path="c.wav", duration=10.0, channels=1, samplerate=16000)]
 
 
-def _event(a, variant):
+def _event(a, variant, geometry=True):
+    if not geometry:      # SoundEvent(geometry=None): legal, and still an event the comparison function may link
+        return data.SoundEvent(uuid=uuid.UUID(int=7000 + 100 * variant + a), recording=_RECS[a % 3] if variant == 0 else _REC,
+                               geometry=None)
     if variant == 0:      # all different, spread over three recordings (neighbouring events on different ones)
         g = data.TimeInterval(coordinates=[float(a), float(a) + 0.5])
         rec = _RECS[a % 3]
@@ -50,13 +54,13 @@ def _event(a, variant):
     return data.SoundEvent(uuid=uuid.UUID(int=7000 + 100 * variant + a), recording=rec, geometry=g)
 
 
-def _events(ids, variant):
-    """One event per identifier.  Twin positions hold the very same object (variant 0) or separately built equal
-    objects with the same uuid (variant 1)."""
+def _events(ids, variant, ng=()):
+    """One event per identifier (those in ng without a geometry).  Twin positions hold the very same object (variant 0)
+    or separately built equal objects with the same uuid (variant 1)."""
     if variant == 0:
         made = {}
-        return [made.setdefault(a, _event(a, 0)) for a in ids]
-    return [_event(a, 1) for a in ids]
+        return [made.setdefault(a, _event(a, 0, a not in ng)) for a in ids]
+    return [_event(a, 1, a not in ng) for a in ids]
 
 
 _RET = {"bool": bool, "np_bool": np.bool_, "int": int}
@@ -65,7 +69,7 @@ _RET = {"bool": bool, "np_bool": np.bool_, "int": int}
 def _run(case, variant):
     ids = case["id"]
     rel = {(a, b) for a, b in case["e"]} | {(b, a) for a, b in case["e"]}       # on identifiers, incl. (a, a) for twins
-    events = _events(ids, variant)
+    events = _events(ids, variant, set(case.get("ng", [])))
     ident = {ev.uuid: a for ev, a in zip(events, ids)}
     calls = []
 
@@ -95,10 +99,11 @@ def execute(case):
     return {"runs": [_run(case, 0), _run(case, 1)]}
 
 
-def _graph(n, edges, ids=None, loops=(), ret="bool"):
+def _graph(n, edges, ids=None, loops=(), ret="bool", ng=()):
     """edges / loops are on identifiers; without ids every position holds its own event."""
     es = sorted({(min(a, b), max(a, b)) for a, b in edges if a != b} | {(a, a) for a in loops})
-    return {"n": n, "id": list(ids) if ids else list(range(1, n + 1)), "e": [list(e) for e in es], "ret": ret}
+    return {"n": n, "id": list(ids) if ids else list(range(1, n + 1)), "e": [list(e) for e in es], "ret": ret,
+            "ng": sorted(ng)}
 
 
 def random_cases(rng, tier):
@@ -142,7 +147,8 @@ def random_cases(rng, tier):
             yield _graph(len(ids), e, ids, [a for a in rep if rng.random() < 0.5],       # f(a, a): both answers
                          ret=rng.choice(["bool", "np_bool", "int"]))
         else:
-            yield _graph(n, e, ret=rng.choice(["bool", "np_bool", "int"]))
+            ng = rng.sample(range(1, n + 1), rng.choice([0, 1, 1, 2, 3])) if k % 3 == 1 else []     # events without geometry
+            yield _graph(n, e, ret=rng.choice(["bool", "np_bool", "int"]), ng=ng)
 
 
 def nontrivial(o):
